@@ -69,7 +69,7 @@ class Normalizer:
             stack.extend(e.children())
         return leaves
 
-    def normal_forms(self, exprs, clear_den=False):
+    def normal_forms(self, exprs, clear_den=False, want_exprs=True):
         """list of (z3 expr, is_zero flag), one shared ring.  Without clear_den each output equals its input
         under the rules; with clear_den it is the input multiplied by a product of (non-zero) divisors, so only
         `== 0` is preserved."""
@@ -206,6 +206,9 @@ class Normalizer:
             if p == 0:
                 out.append((z3.RealVal(0), True))
                 continue
+            if not want_exprs:
+                out.append((None, False))
+                continue
             terms = []
             for mon, coeff in p.items():
                 t = z3.RealVal(f'{coeff.numerator}/{coeff.denominator}')
@@ -235,7 +238,7 @@ def normalize_eq(rules, lhs, rhs, max_terms=60000, recips=()):
 def which_zero(rules, exprs, max_terms=20000, recips=()):
     """index of the first expression that normalises to 0, else None"""
     try:
-        res = Normalizer(rules, max_terms, recips).normal_forms(exprs, clear_den=bool(recips))
+        res = Normalizer(rules, max_terms, recips).normal_forms(exprs, clear_den=bool(recips), want_exprs=False)
     except TooBig:
         return None
     for k, (_, z) in enumerate(res):
